@@ -119,7 +119,9 @@ if E.Path.st_Expr.__module__ != __name__:
 
 # ---------------------------------------------------------------------------
 # int.from_bytes(data[a:a+k]) where the input may be too short: the slice has a symbolic length in 0..k.  The core model
-# needs a fixed length; here the path is split over the (at most 9) possible lengths first -- exact, no abstraction.
+# needs a fixed length.  The result is left an unconstrained integer of the right range (0 <= r < 256**k, k the proved upper
+# bound of the length; signed: the symmetric range) -- an over-approximation without a path split (one split per field
+# multiplies into thousands of paths for a PDU with six enum fields).  int.from_bytes raises nothing for byte strings.
 # ---------------------------------------------------------------------------
 from .values import Obj, Sym  # noqa: E402
 
@@ -128,11 +130,16 @@ _orig_ifb = MC.NATIVE_MODELS[int.from_bytes]
 
 def int_from_bytes(ex, b, *args, **kwargs):
     v = ex.as_bytes_value(b) if models.is_byteslike(ex, b) else b
-    if isinstance(v, Sym) and v.k == 'bytes' and not ex.quant:
+    if isinstance(v, Sym) and v.k == 'bytes' and not ex.quant and not ex.spec_mode:
         n = z3.Length(v.t)
-        if E.conc_int(n) is None and ex.proves(n <= 8):
-            k = ex.decide([n == i for i in range(9)], 'int.from_bytes length')
-            ex.add_def(n == k)
+        if E.conc_int(n) is None and not any(ex.proves(n == i) for i in range(9)):
+            for k in (1, 2, 3, 4, 8):
+                if ex.proves(n <= k):
+                    ex.abstraction_used = True
+                    r = ex.fresh_sym('int', 'ifb')
+                    lim = 1 << (8 * k)
+                    ex.add_def(z3.And(r.t >= (-lim if kwargs.get('signed') else 0), r.t < lim))
+                    return r
     return _orig_ifb(ex, b, *args, **kwargs)
 
 
